@@ -62,7 +62,7 @@ def expand_table(name):
     return out
 
 
-def build(disp, stack, table_name, events, mbs=None):
+def build(disp, stack, table_name, events, mbs=None, shapes='list'):
     is_async = disp.startswith('async')
     table = expand_table(table_name)
 
@@ -108,6 +108,10 @@ def build(disp, stack, table_name, events, mbs=None):
     ehs = {k: [(eh_async if is_async else eh_sync)(hid, kind) for hid, kind in v] for k, v in table.items()}
     cls = pjrpc.server.AsyncDispatcher if is_async else pjrpc.server.Dispatcher
     kw = dict(concurrent_batch=False) if disp == 'async-seq' else {}
+    if shapes == 'iterators':
+        # the documented types are Iterable / Dict: a one-shot iterator of middlewares and tuples of handlers must do
+        mws = iter(list(mws))
+        ehs = {k: tuple(v) for k, v in ehs.items()}
     d = cls(middlewares=mws, error_handlers=ehs, max_batch_size=mbs, **kw)
     log = []
     # the event-log oracle compares one global sequence: methods do not suspend here (interleavings are C10's business)
@@ -198,13 +202,15 @@ def gen_cases(ctx):
                         if disp == 'async-seq' and not isinstance(REQUESTS.get(rq), list):
                             continue      # sequential batch mode only matters for batches
                         yield dict(stack=stack, table=table, request=rq, disp=disp)
+                        if n and n <= 2 and rq in ('ok', 'batch', 'boom-n') and table in ('none', 'generic+percode'):
+                            yield dict(stack=stack, table=table, request=rq, disp=disp, shapes='iterators')
 
 
 def run_case(case, rec):
     stack, tname, rq, disp = tuple(case['stack']), case['table'], case['request'], case['disp']
     events = []
     mbs = 1 if rq == 'oversize' else None
-    d, log, table = build(disp, stack, tname, events, mbs=mbs)
+    d, log, table = build(disp, stack, tname, events, mbs=mbs, shapes=case.get('shapes', 'list'))
     text = '{"jsonrpc": ' if rq == 'unparsable' else json.dumps(REQUESTS[rq])
     # the same request is served twice by the same dispatcher: the second time must look exactly like the first
     # (nothing the user passed in - handler lists, middleware list - may have been altered by serving a request)
